@@ -5,7 +5,7 @@
    NLP analysis nl (ANY multipliers / rankings): so the lexical, NLP-enhanced and typo-fallback
    paths of SearchUniversal are all covered. The cached path is C05 (cached answer = this answer). *)
 From Coq Require Import List ZArith NArith Bool Floats Sorting.Sorted.
-From WTF Require Import Model.Validate Model.Text Model.Platform Model.Engine Proofs.EngineProofs.
+From WTF Require Import Model.Validate Model.Text Model.Platform Model.Engine Model.Recovery Proofs.EngineProofs Proofs.RecoveryProofs.
 Import ListNotations.
 
 (* no entry twice; at most the limit in force (10 when none or a non-positive one is given);
@@ -34,6 +34,16 @@ Theorem c01_fuzzy_ranked_partial : forall E cmds o,
     Sorted (desc_adj (fun x : nat * Z => f_of_Z (snd x))) ranked.
 Proof. exact fuzzy_ranked. Qed.
 
+(* the CLI's last-resort recovery search (Model/Recovery.v; any database, any query): no entry twice, only entries of the
+   searched database, every score finite and non-negative, and one score for the whole answer (so the order is
+   non-increasing); the CLI cuts the answer to the limit (C17 compares what is printed) *)
+Theorem c01_recovery : forall qlc db r, recover qlc db = Some r ->
+  NoDup (map fst r) /\
+  (forall i s, In (i, s) r -> (i < length db)%nat /\ PrimFloat.leb 0 s = true /\ PrimFloat.ltb s infinity = true) /\
+  (forall a b, In a r -> In b r -> snd a = snd b).
+Proof. exact recover_wellformed. Qed.
+
 Print Assumptions c01_bounded_members_nodup.
 Print Assumptions c01_ranked.
 Print Assumptions c01_fuzzy_ranked_partial.
+Print Assumptions c01_recovery.
